@@ -29,6 +29,13 @@ META = {
         "the stub server honours the Range header (206 with exactly those bytes, 416 past the end) and the model is fed the bytes the UNCHANGED client obtains "
         "(a length-only range is requested from offset 0 - for a sub-range that is not the first of its resource this is C10's recorded finding range-implicit, "
         "not judged here: C13 wants no panic, no wedge, an error or normal play)",
+        "absurd byte ranges (declared lengths 0, 2^62, 2^63-1, 2^63, 2^64-1; offsets that make offset + length wrap around 2^64; segments and EXT-X-MAP): "
+        "when the Range header the unchanged client computes (uint64 arithmetic, wrapping) still starts inside the resource, the stub serves the bytes that exist "
+        "and the stream is model-compared like any other; when the stub answers 416 (first byte past the end, or last byte before the first after the wrap) the "
+        "stream is search-only (oracle leg, NOT compared with the model, which has no failed segment download): no crash, no hang, and the VOD stream must end "
+        "by itself (an error from Wait or end of stream) without the harness calling Close()",
+        "search-only (oracle) leg: valid playlists carrying every tag of the decoder and grammar-aware line-level mutations of their tag lines, at every playlist "
+        "position (primary, stream playlist, live reload, low-latency reload): no crash, no hang; outcomes are not compared with the model",
         "search-only (oracle) leg, NOT covered by any theorem: the MPEG-TS track processor's buffered sample queue (clientMPEGTSSampleQueueSize = 100) and the "
         "blocking push into it are not in the model - c13_no_wedge_after_repair speaks about Err EBlocked inside client_run_gen, whose MPEG-TS path hands every "
         "unit to its track processor at once; that a stream processor blocked in push (segments with more than 100 units of one track) still ends with the "
